@@ -2,6 +2,10 @@
 """Writes seeded/<ID>-<X>/meta.json from the sub-agent's agent_meta.json, my notes below and seeded/matrix.tsv."""
 import json,os,glob
 NOTES={
+ "C10-G":"fifth round; a cancellation defect (syntax_tree outside the cancellation guard): C10's sweeps are single-threaded; C12 reports it (SyntaxTree panics while the workspace is being changed)",
+ "C11-F":"fifth round; needs a cancellation in the middle of type inference and a change that does not touch the function's file: C11's histories are single-threaded; C12 reports it since the dependency-only changes (answers of the untouched files must stay what they were)",
+ "C12-F":"fifth round; first missed (all versions had the same, empty diagnostics; readers rarely sat between their last database access and handing in the answer); caught since version-dependent diagnostics in every module and large-module schedules whose readers ask for diagnostics only",
+
  "C01-G":"fifth round; first missed (no text started with a byte order mark); caught since the file prefixes (BOM, NUL, U+2028, U+0085, shebang) in front of every sequence of <=2 token classes",
  "C04-F":"fifth round; first missed (every generated comment had a body); caught since comment bodies come from a pool that contains the empty one",
  "C04-G":"fifth round; first missed (programs were small in every direction); caught since the wide programs (a construct repeated 12-4000 times side by side)",
